@@ -36,7 +36,8 @@ PRED_DOC = {
     "UnusedNodesGone": "a node that svc left and that carries no other service of the peer is removed with its checks",
     "NIOtherPeers": "every row (complete row incl. raft indexes) of every other peer is unchanged",
     "NILocal": "every catalog row of the local cluster is unchanged",
-    "NIRest": "every non-catalog row (sessions, kv, config entries, peerings, gateway-services, ...) is unchanged, except the virtual-IP rows of the updated peer",
+    "NIRest": "every non-catalog row (sessions, kv, config entries, peerings, virtual IPs of others, ...) is unchanged, except the virtual-IP rows of the updated peer",
+    "NIRestGateway": "the local cluster's gateway-services / mesh-topology rows are unchanged",
     "NISamePeer": "rows of the same peer that belong neither to svc nor to a node of the snapshot / a node svc left are unchanged",
     "SharedNodeKept": "a node svc left but that still carries another service keeps its row and node checks",
     "conf": "the catalog after the step equals Peering!Apply(pre_impl, cmd)",
@@ -418,13 +419,13 @@ def replay(path):
 
 SELFTEST_HISTORY = [
     {"t": "seed", "rows": {"nodes": [{"peer": "", "node": "n1", "addr": "10.0.0.9"}, {"peer": "p2", "node": "n1", "addr": "10.0.0.8"}],
-                           "svcs": [{"peer": "", "node": "n1", "id": "w1", "name": "web", "ver": 9}, {"peer": "p2", "node": "n1", "id": "w1", "name": "web", "ver": 8}],
+                           "svcs": [{"peer": "", "node": "n1", "id": "w1", "name": "web", "ver": "9"}, {"peer": "p2", "node": "n1", "id": "w1", "name": "web", "ver": "8"}],
                            "chks": [{"peer": "", "node": "n1", "cid": "nc", "sid": "", "st": "passing"}]}},
     {"t": "upd", "peer": "p1", "svc": "web", "snap": [
-        {"node": "n1", "addr": "10.0.0.1", "nchk": [{"cid": "nc", "st": "critical"}], "insts": [{"id": "w1", "ver": 1, "schk": [{"cid": "w1c", "st": "passing"}]}]},
-        {"node": "n2", "addr": "10.0.0.1", "nchk": [], "insts": [{"id": "w2", "ver": 1, "schk": []}]}]},
+        {"node": "n1", "addr": "10.0.0.1", "nchk": [{"cid": "nc", "st": "critical"}], "insts": [{"id": "w1", "ver": "1", "schk": [{"cid": "w1c", "st": "passing"}]}]},
+        {"node": "n2", "addr": "10.0.0.1", "nchk": [], "insts": [{"id": "w2", "ver": "1", "schk": []}]}]},
     {"t": "upd", "peer": "p1", "svc": "web", "snap": [
-        {"node": "n1", "addr": "10.0.0.1", "nchk": [{"cid": "nc", "st": "critical"}], "insts": [{"id": "w1", "ver": 1, "schk": []}]}]},
+        {"node": "n1", "addr": "10.0.0.1", "nchk": [{"cid": "nc", "st": "critical"}], "insts": [{"id": "w1", "ver": "1", "schk": []}]}]},
     {"t": "list", "peer": "p1", "names": [], "twin": {"web": "web-sidecar-proxy"}},
     {"t": "export", "peer": "p1", "cfg": [{"name": "web", "peers": ["p2"]}, {"name": "api", "peers": ["p1", "p2"]}],
      "lsvcs": [{"name": "web", "kind": ""}, {"name": "api", "kind": ""}], "resolvers": []},
